@@ -18,8 +18,8 @@ sys.path.insert(0, os.path.join(HERE, 'rules'))
 import driver  # noqa: E402
 
 
-def sh(cmd, cwd=None, timeout=1200):
-    r = subprocess.run(cmd, shell=True, cwd=cwd, capture_output=True, text=True, timeout=timeout)
+def sh(cmd, cwd=None, timeout=1200, env=None):
+    r = subprocess.run(cmd, shell=True, cwd=cwd, capture_output=True, text=True, timeout=timeout, env=env)
     return r.returncode, r.stdout + r.stderr
 
 
@@ -73,7 +73,9 @@ def evaluate(patch, pids=None):
         if rc != 0:
             return {'error': 'patch failed: ' + out[-300:]}
         cmd = '%s/check all --repo %s' % (HERE, tmp)
-        rc, out = sh(cmd, cwd=HERE)
+        env = dict(os.environ)
+        env['VERIF_EVIDENCE_DIR'] = os.path.join(HERE, 'work', 'evidence-eval')
+        rc, out = sh(cmd, cwd=HERE, env=env)
         fired = {}
         for m in re.finditer(r'VIOLATION property=(\w+) replay=(\S+)', out):
             rp = os.path.join(HERE, m.group(2))
